@@ -96,9 +96,22 @@ def strip_comments(src):
     return "".join(out)
 
 
+def write_coqproject():
+    """_CoqProject is generated from the directory listing (coqdep orders the files)."""
+    lines = ["-Q theories PKO", "-Q props PKOProps", "-Q corr PKOCorr",
+             "-arg -w -arg -notation-overridden,-deprecated-hint-without-locality,-deprecated-instance-without-locality"]
+    lines += coq_files()
+    text = "\n".join(lines) + "\n"
+    path = os.path.join(COQ, "_CoqProject")
+    if not os.path.exists(path) or open(path).read() != text:
+        with open(path, "w") as f:
+            f.write(text)
+
+
 def build_coq():
     """Full .vo build (coq_makefile + make -k). Returns the make log."""
     with Lock("coq.lock"):
+        write_coqproject()
         if not os.path.exists(os.path.join(COQ, "Makefile")) or \
                 os.path.getmtime(os.path.join(COQ, "_CoqProject")) > os.path.getmtime(os.path.join(COQ, "Makefile")):
             subprocess.run(["coq_makefile", "-f", "_CoqProject", "-o", "Makefile"], cwd=COQ,
